@@ -40,7 +40,7 @@ Definition err_eqb (a b : err) : bool :=
   | _, _ => false end.
 Definition out_eqb (a b : out) : bool :=
   match a, b with
-  | OOk, OOk | OSkip, OSkip | OExc, OExc | OUserinfo, OUserinfo | OInactive, OInactive => true
+  | OOk, OOk | OSkip, OSkip | OExc, OExc | OUserinfo, OUserinfo | OInactive, OInactive | OLogin, OLogin => true
   | OErr x, OErr y => err_eqb x y
   | OAuthz c s, OAuthz c' s' =>   (* the response scope goes through a Python set: order-insensitive *)
       Nat.eqb c c' && subset s s' && subset s' s && Nat.eqb (length s) (length s')
